@@ -72,6 +72,7 @@ type jfile struct {
 	Mt     int64    `json:"mtime_rank"`
 	Tomb   *int64   `json:"tombstone_mtime_rank,omitempty"` // nil: no tombstone file
 	Blocks []jblock `json:"blocks"`
+	View   []jblock `json:"reader_view"` // blocks a reader that loaded the tombstone file iterates
 }
 type jmember struct {
 	Name   string   `json:"name"`
@@ -553,6 +554,20 @@ func runCase(w *vh.W, c *jcase) {
 		if err != nil {
 			failure = "cannot read layout of " + p + ": " + err.Error()
 		}
+		jf.View = jf.Blocks
+		if jf.Tomb != nil { // the same file as a reader with its tombstones sees it
+			vdir := filepath.Join(ldir, fmt.Sprintf("v%d", i))
+			os.MkdirAll(vdir, 0o777)
+			vp := filepath.Join(vdir, filepath.Base(cp))
+			os.WriteFile(vp, data, 0o666)
+			if td, err := os.ReadFile(tombPath(p)); err == nil {
+				os.WriteFile(tombPath(vp), td, 0o666)
+			}
+			jf.View, err = blocksOf(vp)
+			if err != nil {
+				failure = "cannot read tombstoned layout of " + p + ": " + err.Error()
+			}
+		}
 		c.Files = append(c.Files, jf)
 	}
 	os.RemoveAll(ldir)
@@ -661,47 +676,33 @@ func runCase(w *vh.W, c *jcase) {
 		}
 	}
 
-	// ---- known-finding shapes, decided from the state before the action and the request ----
+	// ---- known-finding shapes, decided from the state before the action and the request.
+	// Repaired (no signature any more, a regression is a VIOLATION): restore of a
+	// tombstoned shard, export of a tombstoned shard, export of a file overlapping the
+	// range with no block in it.
 	sig := ""
-	if c.Action == "backup" && hadTomb {
-		sig = "restore-drops-tombstones"
-	}
 	if c.Action == "export" {
-		partial, noblock := false, false
+		partial := false
 		for _, f := range c.Files {
-			fmin, fmax, any := int64(math.MaxInt64), int64(math.MinInt64), false
-			overl := false
 			for _, b := range f.Blocks {
 				if len(b.Pts) == 0 {
 					continue
 				}
-				any = true
 				bmin, bmax := b.Pts[0][0], b.Pts[len(b.Pts)-1][0]
-				if bmin < fmin {
-					fmin = bmin
+				if bmin <= c.Hi && bmax >= c.Lo && (bmin < c.Lo || bmax > c.Hi) {
+					partial = true
 				}
-				if bmax > fmax {
-					fmax = bmax
-				}
-				if bmin <= c.Hi && bmax >= c.Lo {
-					overl = true
-					if bmin < c.Lo || bmax > c.Hi {
-						partial = true
-					}
-				}
-			}
-			if any && fmin <= c.Hi && fmax >= c.Lo && !overl {
-				noblock = true
 			}
 		}
 		switch {
 		case hadTomb || anyTomb(c.Files):
-			sig = "export-tombstoned-file-fails"
-		case noblock:
-			sig = "export-no-block-in-range-fails"
+			sig = "import-drops-tombstones" // Import (asNew) does not install tombstone members
 		case partial:
 			sig = "export-block-granularity"
 		}
+	}
+	if probeFailure != "" && w.Len() == 0 {
+		failure = probeFailure
 	}
 
 	writes, deletes, compacts := 0, 0, 0
@@ -729,14 +730,20 @@ func runCase(w *vh.W, c *jcase) {
 	w.Count("target", map[bool]string{false: "engine", true: "shard"}[c.ViaShard])
 	w.Count("nfiles", fmt.Sprint(len(c.Files)))
 	w.Count("members", fmt.Sprint(len(c.Members)))
+	if c.Action == "export" && c.Err == "" && noBlockShape(c) {
+		w.Count("repaired_shape", "export-no-block-in-range")
+	}
+	if hadTomb {
+		w.Count("repaired_shape", c.Action+"-of-tombstoned-shard")
+	}
 	w.Count("err", c.Err)
 	w.Count("restore_err", c.RestoreErr)
 	w.Count("shape", sig)
 	w.Count("tombstone_files", fmt.Sprint(hadTomb))
 }
 
-// probeTruncated records (evidence only, no verdict) what the two restore entry points
-// return for a backup archive cut in the middle of a TSM member.
+// probeTruncated checks that both restore entry points reject a backup archive cut in the
+// middle of a TSM member (Shard.Restore used to swallow the engine's error).
 func probeTruncated(w *vh.W) {
 	a, err := openEngine(false, true)
 	if err != nil {
@@ -765,6 +772,41 @@ func probeTruncated(w *vh.W) {
 	os.RemoveAll(root)
 	w.Extra["truncated_archive_engine_restore_err"] = fmt.Sprint(eerr)
 	w.Extra["truncated_archive_shard_restore_err"] = fmt.Sprint(serr)
+	if eerr == nil {
+		probeFailure = "Engine.Restore accepted a backup archive truncated inside a TSM member"
+	} else if serr == nil {
+		probeFailure = "Shard.Restore returned nil for a truncated backup archive that Engine.Restore rejects (" + eerr.Error() + "): a failed restore is reported as a success"
+	}
+}
+
+// set by probeTruncated, reported as an implementation failure on the first case
+var probeFailure string
+
+// noBlockShape: some file's [min,max] meets the range but none of its blocks does.
+func noBlockShape(c *jcase) bool {
+	for _, f := range c.Files {
+		fmin, fmax, any, overl := int64(math.MaxInt64), int64(math.MinInt64), false, false
+		for _, b := range f.Blocks {
+			if len(b.Pts) == 0 {
+				continue
+			}
+			any = true
+			bmin, bmax := b.Pts[0][0], b.Pts[len(b.Pts)-1][0]
+			if bmin < fmin {
+				fmin = bmin
+			}
+			if bmax > fmax {
+				fmax = bmax
+			}
+			if bmin <= c.Hi && bmax >= c.Lo {
+				overl = true
+			}
+		}
+		if any && fmin <= c.Hi && fmax >= c.Lo && !overl {
+			return true
+		}
+	}
+	return false
 }
 
 func anyTomb(fs []jfile) bool {
@@ -847,7 +889,7 @@ func caseTerm(c *jcase) string {
 	}
 	files := make([]string, len(c.Files))
 	for i, f := range c.Files {
-		files[i] = fmt.Sprintf("{| o_mt := %s; o_tomb := %s; o_blocks := %s |}", vh.Z(f.Mt), optZ(f.Tomb), blocksTerm(f.Blocks))
+		files[i] = fmt.Sprintf("{| o_mt := %s; o_tomb := %s; o_blocks := %s; o_view := %s |}", vh.Z(f.Mt), optZ(f.Tomb), blocksTerm(f.Blocks), blocksTerm(f.View))
 	}
 	mem := make([]string, len(c.Members))
 	for i, m := range c.Members {
